@@ -154,7 +154,7 @@ Definition op_export_sat (m : fm) : sexp :=
                              (splot_write m)];
      e_tag "pl" [e_result (fun d => e_sels (filter (fun sel => pl_sat (sigma_of sel) d) subsets)) (pl_write m)];
      e_tag "clafer" [e_result (fun d => e_sels (filter (fun sel =>
-                                   clafer_sat (fun n => existsb (fun s => String.eqb (w_safename s) n) sel) d) subsets))
+                                   clafer_sat (fun n => existsb (fun s => String.eqb (cl_safename s) n) sel) d) subsets))
                               (clafer_write m)]].
 
 Definition d_draw (s : sexp) : option draw :=
